@@ -2,7 +2,10 @@
 
 package sctp
 
-import "time"
+import (
+	"errors"
+	"time"
+)
 
 // C08 — graceful shutdown delivers everything first and completes on both sides.
 
@@ -40,7 +43,9 @@ func vh_C08_L1_two_party_shutdown() { vTwoPartyShutdown(false) }
 func vh_C08_L1_two_party_shutdown_packets_cross() { vTwoPartyShutdown(true) }
 
 func vTwoPartyShutdown(cross bool) {
-	a, b := vPair(vAssocOpts{})
+	zc := vPick(2) == 1 // zero checksums negotiated both ways: every shutdown packet carries a zero checksum
+	a, b := vPair(vAssocOpts{zeroChecksum: zc})
+	a.sendZeroChecksum, b.sendZeroChecksum = zc, zc
 	s, err := a.OpenStream(1, PayloadTypeWebRTCBinary)
 	vassert(err == nil, "open stream")
 	maxMsgs := 2
@@ -457,3 +462,24 @@ func vh_C08_L4_data_in_shutdown_sent() {
 // switch (= C20.L5): a write that returned success is sent, and the two shutdowns end in
 // SHUTDOWN-ACK-SENT whichever is processed first.
 func vh_C08_L5_shutdown_racing_with_write_or_peer_shutdown() { vh_C20_L5_racing_api_calls() }
+
+// C08.L6: the closure reaches every reader. A stream whose reader's last read had timed out
+// (deadline error stored, deadline not re-armed yet) still gets the closure error when the
+// shutdown sequence completes (SHUTDOWN COMPLETE received in SHUTDOWN-ACK-SENT).
+func vh_C08_L6_closure_error_replaces_deadline_error() {
+	a, conn := vNewAssoc()
+	s, err := a.OpenStream(1, PayloadTypeWebRTCBinary)
+	vassert(err == nil, "open stream")
+	s.lock.Lock()
+	s.readErr = ErrReadDeadlineExceeded
+	s.lock.Unlock()
+	a.setState(shutdownAckSent)
+	vassert(vDeliver(a, &chunkShutdownComplete{}) == nil, "SHUTDOWN COMPLETE is not fatal to the read loop")
+	conn.failReads = true
+	a.readLoop() // the transport is closed: the read loop ends
+	vassert(a.getState() == closed, "closed")
+	vassert(s.readErr != nil && !errors.Is(s.readErr, ErrReadDeadlineExceeded), "the stream reports the closure, not the stale deadline error")
+	_ = s.SetReadDeadline(time.Time{})
+	vassert(s.readErr != nil, "re-arming or clearing the deadline afterwards does not wipe the closure error")
+	vcover("end")
+}
